@@ -8,7 +8,7 @@ REQ = ["Coq.Strings.String", "GoSlice", "AperCommon", "AperEnc", "AperDec", "Nga
 
 # per-call limits of the observable (DESIGN.md C14): the schema's worst chain of over-claimed lists reserves 16.25 MB;
 # everything else the decoder allocates (trace strings, reflect.New) is proportional to the work done on <= 4 KiB of input
-ALLOC_LIMIT = 64 * 1024 * 1024
+ALLOC_LIMIT = 20 * 1024 * 1024     # + 64 KiB per input octet
 TIME_LIMIT_NS = 2_000_000_000
 HISTORIC = "000e0012000001006e000b200003a3529440011003e8"     # panicked before fix 1966540 (zero-bit read)
 
@@ -106,7 +106,7 @@ class NgapMalformed(Stream):
     def direct_check(self, c, o):
         if o.get("r") == "panic": return "decoder panicked: " + str(o.get("msg"))
         if o.get("r") == "timeout": return "decoder did not return within the time limit"
-        if o.get("alloc", 0) > ALLOC_LIMIT: return "decoding allocated %d bytes for %d input octets" % (o["alloc"], len(c["hex"]) // 2)
+        if o.get("alloc", 0) > ALLOC_LIMIT + 65536 * (len(c["hex"]) // 2): return "decoding allocated %d bytes for %d input octets" % (o["alloc"], len(c["hex"]) // 2)
         if o.get("ns", 0) > TIME_LIMIT_NS: return "decoding took %d ns" % o["ns"]
         return None
 
@@ -153,11 +153,19 @@ class PrimMalformed(Stream):
 
 class C14(A.AperCheck):
     pid = "C14"
-    prop_files = []
+    prop_files = ["Properties/C14.v"]
     extra_targets = ["Model/AperCheck.vo"]
     streams = [NgapMalformed(), PrimMalformed()]
-    trusted = []
-    assumptions = []
+    trusted = ["Coq 8.16.1 kernel incl. vm_compute (no native_compute); no axioms (Print Assumptions: closed under the global context)",
+               "hand-written models Model/AperEnc.v, Model/AperDec.v (marshal.go / aper.go) tied by the correspondence streams: implementation == model on every case, incl. error identity and panics",
+               "Go slices modelled with capacity == length (the harness hands exact-capacity slices to the codec)",
+               "reflect-based translator harness/gen_ngapschema.go (a copy of parseFieldParameters; root parameter strings read from ngap.go / build.go)",
+               "Spec/NgapGolden.v: frozen transcription of the TS 38.413 types in tag notation (cross-checked against an independent Python X.691 reference on ~24000 values in the design round)",
+               "Spec/X691.v written from ITU-T X.691 (08/2015), aligned variant, lengths below 16384, no extension additions",
+               "Python reference encoder in vlib/props/AperLib.py (only used to produce canonical encodings; checked equal to the Coq specification on every case)"]
+    assumptions = ["inputs below 2^32 octets (the property: 4 KiB)",
+                   "totality is proved for all primitive readers incl. parseInteger; parseOctetString/BitString and parseField are TODO-PARTIAL (Properties/C14.v) and covered by the malformed streams",
+                   "allocation limit of the stream: 20 MiB + 64 KiB per input octet (schema worst chain 16.25 MB, DESIGN.md C14)"]
 
     def regen(self, harness):
         ch = G.run_translator(harness, "gen-ngapschema", "NgapSchema.v")
